@@ -85,6 +85,15 @@ func opsClassify(p opsPoint, s, g opsOutcome) []opsFinding {
 func runOps(prop, tier, replay string) {
 	run := ev.Start(prop, tier, "model_checking")
 	if replay != "" {
+		var lp litPoint
+		if loadReplay(replay, &lp) == nil && lp.Pt.Kind != "" {
+			litCheck(run, []litPoint{lp}, prop)
+			run.Set("states", 1)
+			run.Set("transitions", 1)
+			run.Set("traces_validated_against_impl", 1)
+			run.Sample(lp.text())
+			run.Finish()
+		}
 		var hp hdrPoint
 		if prop == "C02" && loadReplay(replay, &hp) == nil && hp.Ctx != "" && hp.E != nil {
 			hdrCheckBatch(run, []hdrPoint{hp})
@@ -161,6 +170,10 @@ func runOps(prop, tier, replay string) {
 		n := selectForC03(run)
 		points += n
 		run.Set("selector_lookups", n)
+	}
+	if prop != "C04" { // composite literals, index and slice expressions, indirection (Lits.tla)
+		st5, tr5, n5 := litRun(run, tier, prop)
+		states, transitions, points = states+st5, transitions+tr5, points+n5
 	}
 	if prop == "C02" { // statement structure: valid bodies of Flow.tla reproduced as the same program
 		st3, tr3, n3 := flowFaithfulRun(run, tier)
